@@ -48,24 +48,30 @@ PrevBucket(h, first, cur, fuel) ==
   IF first = Nil \/ fuel = 0 THEN Nil
   ELSE IF h[first].nx = cur THEN first ELSE PrevBucket(h, h[first].nx, cur, fuel - 1)
 
-\* BTree_rangeSearch -> a BTreeItems record
+\* BTree_rangeSearch: the low and the high end ([f, b, off]), then the BTreeItems record
+CLo(h, min, xmin) ==
+  LET r == h[Root] IN
+  IF min # None THEN FRE(h, Root, min, TRUE, xmin, Nil, FALSE)
+  ELSE IF ~xmin THEN [f |-> TRUE, b |-> r.fb, off |-> 1]
+  ELSE IF Len(h[r.fb].ks) > 1 THEN [f |-> TRUE, b |-> r.fb, off |-> 2]
+  ELSE IF (IF "C_RangeLenLt2" \in Dev THEN Len(r.kids) < 2 ELSE h[r.fb].nx = Nil)
+         THEN [f |-> FALSE, b |-> Nil, off |-> 0]
+  ELSE [f |-> TRUE, b |-> h[r.fb].nx, off |-> 1]
+CHi(h, max, xmax) ==
+  LET r == h[Root]
+      lastb == LastBucket(h, Root) IN
+  IF max # None THEN FRE(h, Root, max, FALSE, xmax, Nil, FALSE)
+  ELSE IF ~xmax THEN [f |-> TRUE, b |-> lastb, off |-> Len(h[lastb].ks)]
+  ELSE IF Len(h[lastb].ks) > 1 THEN [f |-> TRUE, b |-> lastb, off |-> Len(h[lastb].ks) - 1]
+  ELSE IF (IF "C_RangeLenLt2" \in Dev THEN Len(r.kids) < 2 ELSE lastb = r.fb)
+         THEN [f |-> FALSE, b |-> Nil, off |-> 0]
+  ELSE LET pb == PrevBucket(h, r.fb, lastb, Cardinality(DOMAIN h)) IN
+       [f |-> TRUE, b |-> pb, off |-> Len(h[pb].ks)]
 CRange(h, min, max, xmin, xmax) ==
   LET r == h[Root] IN
   IF Len(r.kids) = 0 THEN NoItems ELSE
-  LET lo == IF min # None THEN FRE(h, Root, min, TRUE, xmin, Nil, FALSE)
-            ELSE IF ~xmin THEN [f |-> TRUE, b |-> r.fb, off |-> 1]
-            ELSE IF Len(h[r.fb].ks) > 1 THEN [f |-> TRUE, b |-> r.fb, off |-> 2]
-            ELSE IF (IF "C_RangeLenLt2" \in Dev THEN Len(r.kids) < 2 ELSE h[r.fb].nx = Nil)
-                   THEN [f |-> FALSE, b |-> Nil, off |-> 0]
-            ELSE [f |-> TRUE, b |-> h[r.fb].nx, off |-> 1]
-      lastb == LastBucket(h, Root)
-      hi == IF max # None THEN FRE(h, Root, max, FALSE, xmax, Nil, FALSE)
-            ELSE IF ~xmax THEN [f |-> TRUE, b |-> lastb, off |-> Len(h[lastb].ks)]
-            ELSE IF Len(h[lastb].ks) > 1 THEN [f |-> TRUE, b |-> lastb, off |-> Len(h[lastb].ks) - 1]
-            ELSE IF (IF "C_RangeLenLt2" \in Dev THEN Len(r.kids) < 2 ELSE lastb = r.fb)
-                   THEN [f |-> FALSE, b |-> Nil, off |-> 0]
-            ELSE LET pb == PrevBucket(h, r.fb, lastb, Cardinality(DOMAIN h)) IN
-                 [f |-> TRUE, b |-> pb, off |-> Len(h[pb].ks)]
+  LET lo == CLo(h, min, xmin)
+      hi == CHi(h, max, xmax)
       hard == IF "C_RangeCmpBothOnly" \in Dev THEN (min # None /\ max # None) ELSE TRUE
   IN IF ~lo.f \/ ~hi.f THEN NoItems
      ELSE IF lo.b = hi.b /\ lo.off > hi.off THEN NoItems
